@@ -173,8 +173,9 @@ static int op_guard(const char *op) {
     }
   }
   if (!rc) {
-    saved_id = ref_mpi->id;
-    ref_mpi->id = fix[0];
+    /* ref_grid_create deep-copies ref_mpi: ref_node_owned reads the grid's copy */
+    saved_id = ref_grid_mpi(ref_grid)->id;
+    ref_grid_mpi(ref_grid)->id = fix[0];
     if (is_gem)
       st = ref_cell_local_gem(per == 4 ? ref_grid_tet(ref_grid) : ref_grid_tri(ref_grid), ref_node, fix[1], fix[2],
                               &answer);
@@ -185,7 +186,7 @@ static int op_guard(const char *op) {
       st = ref_swap_local_cell(ref_grid, fix[1], fix[2], &answer);
     else if (is_collapse)
       st = ref_collapse_edge_local_cell(ref_grid, fix[1], fix[2], &answer);
-    ref_mpi->id = saved_id;
+    ref_grid_mpi(ref_grid)->id = saved_id;
     if (REF_SUCCESS != st) r_put(h_status((int)st));
     else r_put(answer ? "1" : "0");
   }
